@@ -579,8 +579,13 @@ func (g *hdGen) op() hdOp {
 	if g.opts.transient {
 		w["transient"], w["join"], w["api"], w["msg"], w["drop"], w["resume"] = 30, 30, 18, 8, 10, 6
 	}
+	if (g.opts.resume || g.opts.endings) && !g.gated && authed && !g.intern[c] {
+		// the connection is cut while the backend's reply to its room join is outstanding, the session is resumed
+		// on a new connection before the backend replies (forced schedule, see "joincut" in hubops)
+		w["joincut"] = 5
+	}
 	total := 0
-	order := []string{"join", "msg", "bye", "drop", "tick", "resume", "transient", "api", "internal", "media", "kick"}
+	order := []string{"join", "msg", "bye", "drop", "tick", "resume", "transient", "api", "internal", "media", "kick", "joincut"}
 	for _, k := range order {
 		total += w[k]
 	}
@@ -605,6 +610,39 @@ func (g *hdGen) op() hdOp {
 				g.rsOf[c] = rs
 				break
 			}
+		}
+		return o
+	case "joincut":
+		o := g.join(c, b, authed)
+		if o.R == 0 {
+			return o
+		}
+		g.next++
+		c2 := g.next
+		o.K, o.C2, o.Addr = "joincut", c2, 1+r.intn(3)
+		if r.chance(55) {
+			// while the join is outstanding somebody writes to the session (or to its room, or to whomever)
+			var others []int
+			for _, x := range g.conns {
+				if _, ok := g.auth[x]; ok && x != c && !g.blocked[x] {
+					others = append(others, x)
+				}
+			}
+			for k := 0; len(others) > 0 && k < 1+r.intn(2); k++ {
+				m := g.message(pick(r, others))
+				if r.chance(60) {
+					m.To = hdToSession(c)
+				}
+				o.Mid = append(o.Mid, m)
+			}
+		}
+		g.removeConn(c)
+		delete(g.auth, c)
+		g.conns = append(g.conns, c2)
+		g.auth[c2] = b
+		if rs, ok := g.rsOf[c]; ok {
+			g.rsOf[c2] = rs
+			delete(g.rsOf, c)
 		}
 		return o
 	case "msg":
@@ -702,7 +740,7 @@ func hdGenCase(r *vrng, id int, opts hdGenOpts, n int) *hdCase {
 	return c
 }
 
-func hdCaseTerm(c *hdCase, trace string) string {
+func hdCaseTerm(c *hdCase, trace string, run *hdRun) string {
 	var lim []string
 	backends := c.Backends
 	if len(backends) == 0 {
@@ -711,7 +749,11 @@ func hdCaseTerm(c *hdCase, trace string) string {
 	for _, b := range backends {
 		lim = append(lim, fmt.Sprintf("%d", b.Limit))
 	}
-	return fmt.Sprintf("mkcase %d %d %s %s %s", c.Id, c.Mode, coqList(lim), coqBool(c.Gated), trace)
+	var infl []string
+	for _, i := range run.inflight {
+		infl = append(infl, fmt.Sprintf("%d", i))
+	}
+	return fmt.Sprintf("mkcasef %d %d %s %s %s %s", c.Id, c.Mode, coqList(lim), coqBool(c.Gated), trace, coqList(infl))
 }
 
 func hdQuiet() { log.SetOutput(io.Discard) }
@@ -749,7 +791,7 @@ func TestVerifHub(t *testing.T) {
 				sink.count("note_" + strings.Fields(note)[0])
 			}
 		}
-		sink.add(hdCaseTerm(c, trace), c, len(c.Ops) >= 5, trace)
+		sink.add(hdCaseTerm(c, trace, run), c, len(c.Ops) >= 5, trace)
 	}
 	sink.close("seeded hub histories (connect, hello v1/internal/resume, join/leave, message/control of all recipient types, bye, drop, housekeeping ticks, room API, virtual sessions) on the real Hub in the quiescent bus semantics; non-trivial = at least 5 ops; distinct = distinct traces")
 }
